@@ -58,7 +58,7 @@ def classify(pid, violation, findings):
 def run_shard(pid, tier, seed, shard, nshards, n_cases, timeout):
     # the last shard runs under `python -O` (assert statements and __debug__ blocks compiled away): the properties
     # are about the library, not about an interpreter flag
-    opt = ["-O"] if (nshards > 1 and shard == nshards - 1) else []
+    opt = ["-OO"] if (nshards > 1 and shard == nshards - 1) else []      # asserts compiled away, docstrings stripped
     cmd = [PY, *opt, "-m", "vmon.worker", pid, "--tier", tier, "--seed", str(seed),
            "--shard", f"{shard}/{nshards}", "--cases", str(n_cases)]
     env = dict(os.environ)
@@ -270,9 +270,23 @@ def replay(pid, path):
         e.pop("VMON_WARNINGS_AS_ERRORS", None)
         if want_W:
             e["VMON_WARNINGS_AS_ERRORS"] = "1"
-        return subprocess.run([PY, *(["-O"] if want_O else []), "-m", "vmon.cli", pid, "--replay", path], env=e,
+        return subprocess.run([PY, *(["-OO"] if want_O else []), "-m", "vmon.cli", pid, "--replay", path], env=e,
                               cwd=VERIF).returncode
     from vmon import env  # noqa: F401
+    if (rec.get("case") or {}).get("kind") == "import":
+        # the recorded violation is the library failing to import in this interpreter mode
+        from vmon.worker import crash_violation
+        try:
+            load_prop(pid)
+        except Exception as e:
+            v = crash_violation(e)
+            if v is None:
+                raise
+            print(json.dumps(v, indent=1, default=str)[:4000])
+            print(f"VIOLATION property={pid} replay={path}")
+            return 1
+        print(f"replay of {path}: no violation reproduced")
+        return 0
     prop = load_prop(pid)
     if rec.get("case") is None or rec["case"].get("post_run"):
         print(f"replay file {path} records a whole-run analysis; re-run the check with "
